@@ -104,6 +104,9 @@ def main(tier):
         if rec is None:
             skipped += 1
             continue
+        if rec["ok"] and not G.assign_file_scopes(pfiles[o["id"]], o.get("file_scopes")):
+            skipped += 1
+            continue
         nok += rec["ok"]
         rec["files"] = dict({fn: G.tla_ready(fp) for fn, fp in pfiles[o["id"]].items()}, **{"_": []})
         recs.append(V.clip_tree(rec))
